@@ -448,16 +448,25 @@ Proof.
   exists SComplete. split; [exact Hin | reflexivity].
 Qed.
 
-Lemma stage_incomplete : forall s pools,
+Lemma stage_incomplete : forall s pools clean_ok,
   complete_only_in_post s = true ->
   snd (run_phases (sd_phases s) pools) = false ->
-  snd (run_stage_desc s pools) = false /\ ~ In SComplete (fst (run_stage_desc s pools)).
+  let r := run_stage_desc_c s pools clean_ok in
+  snd (fst r) = false /\ ~ In SComplete (fst (fst r)) /\ snd r <> ENone /\
+  (clean_ok = true -> snd r = EInspector).
 Proof.
-  intros s pools Hc Hf. unfold run_stage_desc. rewrite Hf. cbn. split; [reflexivity|].
+  intros s pools clean_ok Hc Hf. unfold run_stage_desc_c. rewrite Hf.
   unfold complete_only_in_post in Hc. apply andb_true_iff in Hc. destruct Hc as [H1 H2].
-  apply negb_true_iff in H1, H2. intros Hin. apply in_app_or in Hin. destruct Hin as [Hin|Hin].
-  - apply run_phases_effects in Hin. exact (not_existsb_complete _ H1 Hin).
-  - exact (not_existsb_complete _ H2 Hin).
+  apply negb_true_iff in H1, H2.
+  destruct clean_ok; cbn [fst snd]; (split; [reflexivity|]); split.
+  - intros Hin. apply in_app_or in Hin. destruct Hin as [Hin|Hin].
+    + apply run_phases_effects in Hin. exact (not_existsb_complete _ H1 Hin).
+    + exact (not_existsb_complete _ H2 Hin).
+  - split; [discriminate | reflexivity].
+  - intros Hin. apply in_app_or in Hin. destruct Hin as [Hin|Hin].
+    + apply run_phases_effects in Hin. exact (not_existsb_complete _ H1 Hin).
+    + apply filter_In in Hin. destruct Hin as [Hin _]. exact (not_existsb_complete _ H2 Hin).
+  - split; [|discriminate]. destruct (existsb (seff_eqb SCleanScratch) (sd_finally s)); discriminate.
 Qed.
 
 Lemma all_stages_shape : forall s, In s all_stages -> complete_only_in_post s = true.
@@ -488,21 +497,26 @@ Qed.
 (* C14 for the stages: a failing worker in any phase => the stage does not complete and the
    completing effect does not happen; a completed stage => every worker of every phase
    exited with code 0 *)
-Theorem no_complete_output : forall s specs,
+Theorem no_complete_output : forall s specs clean_ok,
   In s all_stages -> length specs = length (sd_phases s) ->
   Forall (fun p => (1 <= spec_bound p)%nat) specs ->
-  let r := run_stage_desc s (map pool_result specs) in
-  ((exists p, In p specs /\ spec_fails p) -> snd r = false /\ ~ In SComplete (fst r)) /\
-  (snd r = true -> forall p, In p specs -> spec_all_zero p).
+  let r := run_stage_desc_c s (map pool_result specs) clean_ok in
+  ((exists p, In p specs /\ spec_fails p) ->
+     snd (fst r) = false /\ ~ In SComplete (fst (fst r)) /\ snd r <> ENone) /\
+  (snd (fst r) = true -> snd r = ENone /\ forall p, In p specs -> spec_all_zero p).
 Proof.
-  intros s specs Hs Hlen Hb r. split.
-  - intros (p & Hp & Hf). apply stage_incomplete; [apply all_stages_shape; exact Hs|].
+  intros s specs clean_ok Hs Hlen Hb r. split.
+  - intros (p & Hp & Hf).
+    destruct (stage_incomplete s (map pool_result specs) clean_ok) as (H1 & H2 & H3 & _);
+      [apply all_stages_shape; exact Hs| |auto].
     apply run_phases_fail; [rewrite map_length; exact Hlen|].
     exists (pool_result p). split; [apply in_map; exact Hp|].
     apply pool_result_fail; [|exact Hf]. rewrite Forall_forall in Hb. apply Hb. exact Hp.
-  - intros Hok p Hp. apply pool_result_ok; [rewrite Forall_forall in Hb; apply Hb; exact Hp|].
-    subst r. unfold run_stage_desc in Hok.
-    destruct (snd (run_phases (sd_phases s) (map pool_result specs))) eqn:E; [|discriminate].
-    apply (run_phases_ok (sd_phases s) (map pool_result specs)); [rewrite map_length; exact Hlen | exact E|].
-    apply in_map. exact Hp.
+  - intros Hok. subst r. unfold run_stage_desc_c in *.
+    destruct (snd (run_phases (sd_phases s) (map pool_result specs))) eqn:E.
+    + split; [reflexivity|]. intros p Hp.
+      apply pool_result_ok; [rewrite Forall_forall in Hb; apply Hb; exact Hp|].
+      apply (run_phases_ok (sd_phases s) (map pool_result specs)); [rewrite map_length; exact Hlen | exact E|].
+      apply in_map. exact Hp.
+    + destruct clean_ok; discriminate Hok.
 Qed.
